@@ -34,6 +34,7 @@ CONSTANTS NW,          \* threads_max
           MemT,        \* memlimit_threading (as given to lzma_stream_decoder_mt; the coder clamps it to memlimit_stop)
           MemStop,     \* memlimit_stop as given to lzma_stream_decoder_mt
           Tell,        \* "none", or the code the LZMA_TELL_* flags produce for this file's Check type after each Stream Header: "NO_CHECK" | "UNSUPPORTED_CHECK" | "GET_CHECK"
+          MayFailMain, \* BOOLEAN: an allocation made by the main thread may fail (output buffer, a new thread, a Block decoder, thr->in, the Index hash of the next Stream)
           MaxRaise,    \* how often the application may answer LZMA_MEMLIMIT_ERROR with lzma_memlimit_set()
           OutOvh,      \* sizeof(lzma_outbuf): memory of an output buffer = uncompressed size + OutOvh
           Gives,       \* set of input amounts the application may add per call (model checking)
@@ -171,7 +172,7 @@ Ret(mm, r) ==
                   !.ended = (r1 \notin {"OK", "BUF_ERROR"} \cup Notifications),
                   !.pc = "out"]
 
-PendingCode == IF m.pendingErr = "HDRERR" THEN "OPTIONS_ERROR" ELSE "PROG_ERROR"
+PendingCode == IF m.pendingErr = "HDRERR" THEN "OPTIONS_ERROR" ELSE IF m.pendingErr = "MEMERR" THEN "MEM_ERROR" ELSE "PROG_ERROR"
 
 -----------------------------------------------------------------------------
 (* read_output_and_wait(): one pass of its loop under coder.mutex            *)
@@ -391,6 +392,27 @@ TiGet ==
             /\ c' = [c EXCEPT !.memInUse = c.memInUse + GB(m.blk).mem]
     /\ UNCHANGED t
 
+\* An allocation of the main thread fails in SEQ_BLOCK_THR_INIT: threads_stop() and LZMA_MEM_ERROR at once ...
+MainFail(mm) == [mm EXCEPT !.rwRet = "MEM_ERROR", !.pc = "stop", !.loopI = 0]
+\* ... lzma_outq_prealloc_buf(): after the memory accounting section, before get_thread()
+TiGetFailPrealloc ==
+    /\ MayFailMain /\ m.pc = "tiget"
+    /\ c' = [c EXCEPT !.memInUse = c.memInUse + GB(m.blk).mem]
+    /\ m' = MainFail(m) /\ UNCHANGED t
+\* ... initialize_new_thread()
+TiCreateFail == MayFailMain /\ m.pc = "ticreate" /\ m' = MainFail(m) /\ UNCHANGED <<c, t>>
+\* ... thr->in (the worker has been taken from the free stack / created, its Block decoder is initialised)
+TiSetupFailIn ==
+    /\ MayFailMain /\ m.pc = "tisetup"
+    /\ t' = [t EXCEPT ![m.thr] = [@ EXCEPT !.blk = m.blk, !.inBuf = "none", !.ret = "OK"]]
+    /\ m' = MainFail(m) /\ UNCHANGED c
+\* lzma_block_decoder_init() fails: not returned at once but kept as the pending error, reported after the output of
+\* the earlier Blocks (SEQ_ERROR); the worker stays idle and is not returned to the free stack
+TiSetupFailDecoder ==
+    /\ MayFailMain /\ m.pc = "tisetup"
+    /\ m' = [m EXCEPT !.pendingErr = "MEMERR", !.seq = "ERROR", !.pc = "run"]
+    /\ UNCHANGED <<c, t>>
+
 \* initialize_new_thread(): mythread_create; the new worker starts at the top of worker_decoder()
 TiCreate ==
     /\ m.pc = "ticreate"
@@ -471,6 +493,25 @@ EndJoin ==
                     /\ m' = IF m.pc = "endjoin"
                             THEN [m EXCEPT !.nInit = 0, !.loopI = 0, !.seq = "DIRECTRUN", !.pc = "run", !.dIn = 0, !.dOut = 0]
                             ELSE [m EXCEPT !.nInit = 0, !.loopI = 0, !.pc = "freed"]
+
+\* decode_block_header(): lzma_block_header_decode() cannot allocate the filter options: like an unsupported header the
+\* error is kept pending and reported after the output of the earlier Blocks
+BlkHdrFail ==
+    /\ MayFailMain /\ m.pc = "run" /\ m.seq = "BLKHDR" /\ m.blk <= (m.copy + 1) * NB
+    /\ m.inAvail >= GB(m.blk).bh - m.pos /\ GB(m.blk).bh - m.pos > 0
+    /\ m' = [m EXCEPT !.inAvail = @ - (GB(m.blk).bh - m.pos), !.progress = TRUE, !.pos = 0,
+                      !.pendingErr = "MEMERR", !.seq = "ERROR"]
+    /\ UNCHANGED <<c, t>>
+
+\* SEQ_BLOCK_DIRECT_INIT: lzma_block_decoder_init() of the main thread's own Block decoder fails (threads already ended)
+DirectInitFail ==
+    /\ MayFailMain /\ m.pc = "run" /\ m.seq = "DIRECTRUN" /\ m.dIn = 0 /\ m.dOut = 0 /\ m.nInit = 0
+    /\ m' = Ret(m, "MEM_ERROR") /\ UNCHANGED <<c, t>>
+\* stream_decoder_reset() before the next concatenated Stream: lzma_index_hash_init() fails
+NextStreamFail ==
+    /\ MayFailMain /\ Concat /\ m.pc = "run" /\ m.seq = "PADDING" /\ m.pos = 0
+    /\ m.given - m.inAvail = StreamOff(m.copy) + StreamLen
+    /\ m' = Ret(m, "MEM_ERROR") /\ UNCHANGED <<c, t>>
 
 \* The application calls lzma_end() between two lzma_code() calls (any time).
 AppEnd ==
@@ -565,7 +606,7 @@ WFinCoder(w) ==
 Worker(w) == WCheck(w) \/ WWake(w) \/ WDecode(w) \/ WPublish(w) \/ WFinThr(w) \/ WFreeIn(w) \/ WFinCoder(w)
 
 Main == RWBody \/ RWWake \/ RWTimeout \/ StopStep \/ AfterRW \/ Run \/ TiGet \/ TiCreate \/ TiSetup \/ TiStart \/ TiPartial \/ Copy \/ Publish
-        \/ EndSignal \/ EndJoin
+        \/ EndSignal \/ EndJoin \/ TiGetFailPrealloc \/ TiCreateFail \/ TiSetupFailIn \/ TiSetupFailDecoder \/ DirectInitFail \/ NextStreamFail \/ BlkHdrFail
 
 App == \/ \E a \in {"RUN", "FINISH"}, g \in Gives, s \in Spaces : Call(a, Min(g, FileLen - m.given), s)
        \/ AppEnd \/ AppReinit \/ (m.lastRet = "MEMLIMIT_ERROR" /\ AppRaise(FMem(GB(m.blk))))
